@@ -18,7 +18,7 @@ KP = pg.KeyPath
 INLINE = (f'{VL}:KeyPath.keys', f'{VL}:KeyPath.key', f'{VL}:KeyPath.is_root', f'{VL}:KeyPath.depth',
           f'{VL}:KeyPath.__len__', f'{VL}:KeyPath.parent', f'{VL}:KeyPath.__sub__', f'{VL}:KeyPath.__add__',
           f'{VL}:KeyPath.is_relative_to', f'{VL}:KeyPath.from_value', f'{VL}:KeyPath.__eq__',
-          f'{VL}:KeyPath.__ne__')
+          f'{VL}:KeyPath.__ne__', f'{VL}:KeyPath.__init__')
 
 
 @spec
@@ -35,31 +35,6 @@ def _policy(policy):
     return v.copy() if isinstance(v, SSeq) else copy_lib.copy(v)
   policy.handlers[id(copy_lib.copy)] = copy_h
 
-  # KeyPath(key_list, parent): assumed contract of __init__ (verified for
-  # concrete-length inputs by `KeyPathInit` below):
-  #   keys(result) == keys(parent) + key_list
-  def new_keypath(interp, args, kwargs, frame):
-    from pyvc import axioms
-    a = list(args) + [None] * (2 - len(args))
-    keys = interp.resolve(kwargs.get('key_or_key_list', a[0]))
-    parent = interp.resolve(kwargs.get('parent', a[1]))
-    if keys is None:
-      keys = []
-    if isinstance(keys, (SInt, int)) and not isinstance(keys, bool):
-      keys = [keys]
-    if parent is not None and not (isinstance(parent, SObj) and parent.cls is KP):
-      raise I.Unsupported('KeyPath(parent=?)')
-    if parent is not None:
-      pk = parent.fields['_keys']
-      keys = axioms.seq_concat(interp, pk, keys) if not (isinstance(keys, list) and not keys) else pk.copy()
-    if isinstance(keys, list):
-      s = axioms.seq_from_list(interp, keys)
-      if s is None:
-        s = _empty_seq(interp)
-      keys = s
-    interp.path.event('call', f'{VL}:KeyPath.__init__')
-    return SObj(KP, {'_keys': keys, '_path_str': None})
-  policy.handlers[('new', KP)] = new_keypath
 
 
 def _empty_seq(interp):
@@ -80,7 +55,8 @@ class _KP(Contract):
     return KP(list(m.seq(name + '_keys')))
 
   def trace_operands_unchanged(self, events, outcome, interp, env):
-    return not [e for e in events if e.kind in ('write',)]
+    inputs = [interp.resolve(v) for k, v in env.items() if k not in ('result', 'old', 'exc', 'entered')]
+    return not [e for e in events if e.kind == 'write' and any(e.data[0] is x for x in inputs)]
 
 
 @register
@@ -265,28 +241,22 @@ class LemmaSubAdd(LemmaAddSub):
 
 @register
 class KeyPathInit(_KP):
-  """KeyPath.__init__ (the contract assumed at construction sites above),
-  checked for key lists and parents of length <= 3: a bounded stand-in."""
+  """KeyPath.__init__: keys(self) == keys(parent) + key list, for key lists and
+  parents of any length."""
   target = f'{VL}:KeyPath.__init__'
-  bounded = True
-  bound_note = 'len(key list) <= 3 and depth(parent) <= 3 (list.extend on a concrete list needs concrete lengths)'
-  variants = tuple((a, b) for a in range(4) for b in (None, 0, 1, 2, 3))
-
+  variants = ('no-parent', 'parent')
   trace_operands_unchanged = None
 
-  def setup_policy(self, policy):
-    import copy as copy_lib
-    policy.handlers[id(copy_lib.copy)] = lambda interp, a, k, f: list(interp.resolve(a[0]))
-
   def inputs(self, b):
-    nk, npar = self.variant
-    keys = [b.int(f'k{i}') for i in range(nk)]
-    parent = None if npar is None else SObj(KP, {'_keys': [b.int(f'p{i}') for i in range(npar)],
-                                                '_path_str': None})
+    parent = None if self.variant == 'no-parent' else self.path(b, 'parent')
     self_ = SObj(KP, {})
-    self_.ghost['raw_setattr'] = True
-    return dict(self=self_, key_or_key_list=keys, parent=parent), {}
+    return dict(self=self_, key_or_key_list=b.seq('keys'), parent=parent), {}
 
-  def ensures_keys_are_parent_keys_then_keys(self, self_, key_or_key_list, parent):
-    pk = [] if parent is None else parent._keys
-    return self_._keys == pk + key_or_key_list
+  def old(self, key_or_key_list, parent):
+    return dict(keys=list(key_or_key_list), pk=[] if parent is None else list(parent._keys))
+
+  def ensures_keys_are_parent_keys_then_keys(self, self_, old):
+    return self_._keys == old['pk'] + old['keys']
+
+  def ensures_arguments_unchanged(self, key_or_key_list, parent, old):
+    return key_or_key_list == old['keys'] and (parent is None or parent._keys == old['pk'])
